@@ -488,3 +488,86 @@ func insertOnly(st ast.Stmt, okCalls map[string]bool) string {
 	}
 	return fmt.Sprintf("statement %T", st)
 }
+
+// deadfield mode (C13): the field is never read anywhere in the module (it may be written).
+//   [dead-field:<type>.<field>]
+func deadfield(dir string, pats []string, typ, field string) *result {
+	res := &result{Mode: "deadfield", Obligations: 1}
+	cfg := &packages.Config{Mode: packages.LoadAllSyntax | packages.NeedModule, Dir: dir, Fset: token.NewFileSet()}
+	pkgs, err := packages.Load(cfg, pats...)
+	if err != nil {
+		fmt.Fprintln(os.Stderr, "framecheck: load:", err)
+		os.Exit(2)
+	}
+	seen := map[string]bool{}
+	found := false
+	reads := 0
+	var visit func(p *packages.Package)
+	visit = func(p *packages.Package) {
+		if seen[p.PkgPath] {
+			return
+		}
+		seen[p.PkgPath] = true
+		if p.Module == nil || !p.Module.Main {
+			return
+		}
+		for _, ip := range p.Imports {
+			visit(ip)
+		}
+		res.Packages = append(res.Packages, p.PkgPath)
+		for _, f := range p.Syntax {
+			if strings.HasSuffix(p.Fset.Position(f.Pos()).Filename, "_test.go") {
+				continue
+			}
+			// collect selector expressions that are assignment targets
+			written := map[*ast.SelectorExpr]bool{}
+			ast.Inspect(f, func(n ast.Node) bool {
+				if as, ok := n.(*ast.AssignStmt); ok {
+					for _, l := range as.Lhs {
+						if se, ok := l.(*ast.SelectorExpr); ok {
+							written[se] = true
+						}
+					}
+				}
+				return true
+			})
+			ast.Inspect(f, func(n ast.Node) bool {
+				se, ok := n.(*ast.SelectorExpr)
+				if !ok {
+					return true
+				}
+				sel, ok := p.TypesInfo.Selections[se]
+				if !ok || sel.Kind() != types.FieldVal || sel.Obj().Name() != field {
+					return true
+				}
+				recv := sel.Recv()
+				if pt, ok := recv.(*types.Pointer); ok {
+					recv = pt.Elem()
+				}
+				if n, ok := recv.(*types.Named); !ok || n.Obj().Pkg().Name()+"."+n.Obj().Name() != typ {
+					return true
+				}
+				found = true
+				if !written[se] {
+					reads++
+					pp := p.Fset.Position(se.Pos())
+					res.Findings = append(res.Findings, finding{"dead-field:" + typ + "." + field, p.PkgPath, fmt.Sprintf("%s:%d", pp.Filename, pp.Line), "the field is read here: the spelling of the literal can now reach generated output"})
+				}
+				return true
+			})
+		}
+	}
+	for _, p := range pkgs {
+		visit(p)
+	}
+	if !found {
+		res.Samples = append(res.Samples, "field "+typ+"."+field+" is not mentioned at all")
+	} else {
+		res.Samples = append(res.Samples, "field "+typ+"."+field+" is only written")
+	}
+	if reads == 0 {
+		res.Discharged = 1
+	}
+	res.Functions = len(res.Packages)
+	return res
+}
